@@ -311,9 +311,13 @@ def configs_for(rng, par, all_subsets, n_subsets, n_user, gid):
     full = [c + ('none',) for c in full]
     # user adapters (subclasses overriding _restore / _adapt), DirectAdapter with the user's classes, and verifiers /
     # adapters that went through pickle or deepcopy before use (rules then are module-level picklable objects)
-    for k in range(6 if all_subsets else 2):
-        ad = ['IdS', 'DrC', 'DrS', 'XS', 'DrC', 'IdS'][(gid + k) % 6] if k % 2 == 0 else rng.choice(list(ADAPTERS))
-        travel = rng.choice(['none'] + TRAVELS) if k % 2 == 0 else rng.choice(TRAVELS)
+    for k in range(6 if all_subsets else 1):
+        if all_subsets:
+            ad = ['IdS', 'DrC', 'DrS', 'XS', 'DrC', 'IdS'][(gid + k) % 6] if k % 2 == 0 else rng.choice(list(ADAPTERS))
+            travel = rng.choice(['none'] + TRAVELS) if k % 2 == 0 else rng.choice(TRAVELS)
+        else:
+            ad = rng.choice(['IdS', 'DrC', 'DrS', 'XS', 'DrC', 'IdS'] + list(ADAPTERS))
+            travel = rng.choice(['none'] + TRAVELS + TRAVELS)
         rules = rand_user_config(rng, n_edges)
         if travel == 'pickle':
             rules = [r if r[0] == 'b' else [r[0], r[1], r[2], 'picklable'] for r in rules]
